@@ -303,6 +303,13 @@ func (w *world) build(hn *honest, ops []string) *variant {
 		return w.buildOtherHeight(ops, true)
 	}
 	h := forge.HeaderTemplate(w.parent, r)
+	if w.cert {
+		// a certificate-round header commits to the CHT / bloom-trie roots (the light-client entry
+		// VerifyAcHeader refuses headers without them)
+		h.ChtRoot, h.BltRoot = make([]byte, 32), make([]byte, 32)
+		r.Read(h.ChtRoot)
+		r.Read(h.BltRoot)
+	}
 	propTh, valTh, certTh := cp.ProposerThreshold, cp.ValidatorThreshold, cp.CertValThreshold
 	total := w.set.Total.Uint64()
 	pick := func(base uint64) uint64 {
@@ -1039,6 +1046,27 @@ func judge(c *kit.Ctx, w *world, hn *honest, ops []string) {
 				}
 				c.Violation("accepted-without-protocol-quorum:"+opname, fmt.Sprintf("%s accepted a header although %s (ops %v)", call.name, reason, v.ops), witness(w, v, sum, q))
 			}
+		}
+	}
+	// the light-client entry point: it accepts a certificate-round header on its certificate votes
+	// alone (no proposer, no precommits), so it is judged on the certificate quorum alone - with the
+	// honest look-back header only (that header is the light client's trust anchor)
+	if w.cert && !strings.Contains(opname, "cert-lookback-threshold-author") {
+		var err error
+		g := kit.Guard(func() { err = w.srv.VerifyAcHeader(w.chain, v.header, nil) })
+		c.Evals(1)
+		switch {
+		case g != nil:
+			c.Violation("verifier-panic:"+opname, fmt.Sprintf("VerifyAcHeader panicked on a hostile header (ops %v): %v", v.ops, g), witness(w, v, sum, q))
+		case err == nil && !certOK:
+			c.Violation("ac-header-accepted-without-certificate-quorum:"+opname, fmt.Sprintf("VerifyAcHeader (light-client path) accepted a header although the valid certificate-vote weight under the protocol certificate threshold is %d < quorum %d (ops %v)", csum, cq, v.ops), witness(w, v, sum, q))
+		case err == nil:
+			c.Count("ac_headers_accepted_with_certificate_quorum", 1)
+			if len(v.ops) == 0 {
+				c.Count("honest_accepted_by_VerifyAcHeader", 1)
+			}
+		default:
+			c.Count("ac_headers_rejected", 1)
 		}
 	}
 	bucket := "below"
